@@ -203,3 +203,25 @@ Fixpoint failing_from (i : N) (cs : list case) : list (N * N) :=
               if N.eqb k 0 then failing_from (N.succ i) r else (i, k) :: failing_from (N.succ i) r
   end.
 Definition failing (cs : list case) : list (N * N) := failing_from 0%N cs.
+
+(* ---------- evaluation against the model of the REPAIRED algorithm (model/C05_fixed.v) ----------
+   Used only when the harness runs a scratch copy of balance.go with fixes/*.diff applied
+   (VERIF_C05_FIXED=1): no known-finding bit is accepted, every spec failure counts. *)
+From AV Require Import model.C05_fixed.
+Definition m_out_f (c : case) : list change * bool :=
+  balance_f (c_dflt c) (fun s => nth s (c_rank c) 0) (fun d => nth d (c_devrank c) 0) (c_min c)
+            (c_raw c) (c_sro c) (c_repl c) (c_desired c).
+Definition model_f_b (c : case) : bool :=
+  negb (no_ties c) ||
+  (let '(chs, lost) := m_out_f c in
+   peq (psort (trashes chs)) (psort (o_trash c)) && peq (psort (pulls chs)) (psort (o_pull c)) &&
+   Bool.eqb lost (o_lost c)).
+Definition check_case_fixed (c : case) : N :=
+  ((if model_f_b c then 0 else 1) + (if spec_b c then 0 else 2))%N.
+Fixpoint failing_fixed_from (i : N) (cs : list case) : list (N * N) :=
+  match cs with
+  | [] => []
+  | c :: r => let k := check_case_fixed c in
+              if N.eqb k 0 then failing_fixed_from (N.succ i) r else (i, k) :: failing_fixed_from (N.succ i) r
+  end.
+Definition failing_fixed (cs : list case) : list (N * N) := failing_fixed_from 0%N cs.
